@@ -36,7 +36,11 @@ open LoomVerif
 #print axioms RwLock.sim_tryWrite
 #print axioms RwLock.sim_blocking
 #print axioms RwLock.sim_release
-#print axioms Lock.blocks_try_acquirers
+#print axioms NotWaiting_spelled_out
+#print axioms Lock.never_blocks_try_acquirers
+#print axioms Lock.blocks_waiters
+#print axioms Lock.branch_records
+#print axioms Lock.try_acquirer_keeps_running
 #print axioms Lock.reference_never_disables_tryLock
 #print axioms Lock.handover_example
 #print axioms Lock.tryLock_examples
